@@ -91,7 +91,10 @@ fn one_seed(eps: f64, delta: f64, stream: Stream, bh: CtlBuildHasher, r: &mut Fa
         }
     }
     let total: u64 = items.iter().map(|x| x.1).sum();
-    for (k, n) in &items {
+    for (i, (k, n)) in items.iter().enumerate() {
+        if i & 0x3ff == 0 {
+            beat();
+        }
         c.add_n(k, n);
     }
     let thr = eps * total as f64;
